@@ -242,6 +242,52 @@ fn blocks_of_markdown(key: &Key, md: &str) -> Value {
     gblocks(&Projector::project(t.iter(), &key.parent()))
 }
 
+/// neutral render tree -> GraphBlock.  {"k":"P"|"PL","t":..} {"k":"H","lv":n,"t":..} {"k":"C","t":..,"lang":..} {"k":"R"} {"k":"Q","c":[..]}
+/// {"k":"BL"|"OL","items":[[..]], "base": n}: an ordered list is preceded by `base` one-word items (so its items are numbered base+1..)
+fn rblock(v: &Value) -> GraphBlock {
+    let t = || vec![GraphInline::Str(v["t"].as_str().unwrap_or("").to_string())];
+    let kids = |x: &Value| x.as_array().map(|a| a.iter().map(rblock).collect::<Vec<_>>()).unwrap_or_default();
+    match v["k"].as_str().unwrap() {
+        "P" => GraphBlock::Para(t()),
+        "PL" => GraphBlock::Plain(t()),
+        "H" => GraphBlock::Header(v["lv"].as_u64().unwrap() as u8, t()),
+        "C" => GraphBlock::CodeBlock(v["lang"].as_str().map(|s| s.to_string()), v["t"].as_str().unwrap_or("").to_string()),
+        "R" => GraphBlock::HorizontalRule,
+        "Q" => GraphBlock::BlockQuote(kids(&v["c"])),
+        k @ ("BL" | "OL") => {
+            let mut items: Vec<Vec<GraphBlock>> = vec![];
+            for _ in 0..v["base"].as_u64().unwrap_or(0) {
+                items.push(vec![GraphBlock::Plain(vec![GraphInline::Str("x".into())])]);
+            }
+            for it in v["items"].as_array().unwrap() {
+                items.push(kids(it));
+            }
+            if k == "BL" { GraphBlock::BulletList(items) } else { GraphBlock::OrderedList(items) }
+        }
+        other => panic!("render tree kind {}", other),
+    }
+}
+
+/// Document blocks as read back by the real reader, in the same neutral form (the first `skip` items of an ordered list are dropped again)
+fn dneutral(b: &DocumentBlock, bases: &mut Vec<u64>) -> Value {
+    let text = |inl: &Vec<DocumentInline>| inl.iter().map(|i| i.to_plain_text()).collect::<Vec<_>>().join("");
+    match b {
+        DocumentBlock::Para(p) => json!({"k": "P", "t": text(&p.inlines)}),
+        DocumentBlock::Plain(p) => json!({"k": "P", "t": text(&p.inlines)}),
+        DocumentBlock::Header(h) => json!({"k": "H", "lv": h.level, "t": text(&h.inlines)}),
+        DocumentBlock::CodeBlock(c) => json!({"k": "C", "t": c.text, "lang": c.lang}),
+        DocumentBlock::HorizontalRule(_) => json!({"k": "R"}),
+        DocumentBlock::BlockQuote(q) => json!({"k": "Q", "c": q.blocks.iter().map(|x| dneutral(x, bases)).collect::<Vec<_>>()}),
+        DocumentBlock::BulletList(l) => json!({"k": "BL", "items": l.items.iter().map(|it| it.iter().map(|x| dneutral(x, bases)).collect::<Vec<_>>()).collect::<Vec<_>>()}),
+        DocumentBlock::OrderedList(l) => {
+            let skip = if bases.is_empty() { 0 } else { bases.remove(0) } as usize;
+            let n = l.items.len();
+            json!({"k": "OL", "n_items": n, "items": l.items.iter().skip(skip.min(n)).map(|it| it.iter().map(|x| dneutral(x, bases)).collect::<Vec<_>>()).collect::<Vec<_>>()})
+        }
+        other => json!({"k": "other", "dbg": format!("{:?}", other).chars().take(80).collect::<String>()}),
+    }
+}
+
 fn run_action(g: &Graph, provider: &str, target: u64) -> Value {
     let cx = Cx { g, opts: MarkdownOptions::default(), model: Model::default() };
     macro_rules! go {
@@ -560,6 +606,15 @@ fn run_op(st: &mut St, op: &Value) -> Value {
             gblocks(&Projector::project(t.iter(), &k.parent()))
         }
         "to_markdown" => json!(gr(st).to_markdown(&key(op))),
+        "render_reread" => {
+            // real writer, then real reader
+            let blocks: Vec<GraphBlock> = op["blocks"].as_array().unwrap().iter().map(rblock).collect();
+            let text = liwe::model::graph::blocks_to_markdown_sparce(&blocks, &MarkdownOptions::default());
+            let d = liwe::graph::Reader::document(&MarkdownReader::new(), &text);
+            let mut bases: Vec<u64> = op["bases"].as_array().map(|a| a.iter().map(|x| x.as_u64().unwrap_or(0)).collect()).unwrap_or_default();
+            let shown: String = if text.len() > 4000 { text[text.len() - 4000..].chars().skip(4).collect() } else { text.clone() };
+            json!({"text_tail": shown, "blocks": d.blocks.iter().map(|b| dneutral(b, &mut bases)).collect::<Vec<_>>()})
+        }
         "parse_blocks" => {
             // text -> Document blocks (Debug form) : witnesses for grammar productions
             let d = liwe::graph::Reader::document(&MarkdownReader::new(), op["text"].as_str().unwrap());
